@@ -653,6 +653,19 @@ static void fam_zz_gcd(void)
 	}
 }
 
+/* Jacobi symbol with a shorter than b, fixed operands: a from the alphabet (1 word), b = 5*B + t (2 words), t odd */
+static void fam_zz_jacobi_short(void)
+{
+	int k, r; word t; num a, b; char c2[96];
+	for (k = 1; k < 8; ++k) for (t = 3; t <= 41; t += 2)
+	{
+		mkshape(&a, 1, k); memset(b.v, 0, sizeof(b.v)); b.n = 2; b.v[0] = t; b.v[1] = 5;
+		snprintf(c2, sizeof(c2), "a=%s,b=5B+%u", a.nm, (unsigned)t);
+		LB("zz", "zzJacobi", "def"); jInt("n", 1); jInt("m", 2); LW("a", a.v, 1); LW("b", b.v, 2);
+		CALL(r = zzJacobi(a.v, 1, b.v, 2, STACK)); jInt("ret", r); LE_(c2, "none");
+	}
+}
+
 /* ------------------------------------------------------------------ zz: modular arithmetic */
 typedef void (*f_cabm)(word*, const word*, const word*, const word*, size_t);
 static void do_cabm(const char* op, const char* ed, f_cabm f, const num* a, const num* b, const num* mod, int alias)
@@ -1549,6 +1562,44 @@ static void fam_qr(void)
 		}
 	}
 }
+
+/* ------------------------------------------------------------------ gf2: fields GF(2^m) built by gf2Create (trinomials / pentanomials) */
+static void fam_gf2(void)
+{
+	size_t t; int i, j;
+	for (t = 0; t < COUNT_OF(IRR); ++t)
+	{
+		size_t p[4]; qr_o* f = (qr_o*)QRMEM[0]; size_t m = IRR[t][0], n, no; num mod, a, b; octet ao[NW * 8], bo[NW * 8], co[NW * 8]; char c2[160];
+		p[0] = m; p[1] = IRR[t][1]; p[2] = IRR[t][2]; p[3] = IRR[t][3];
+		/* preconditions of ppRedTrinomial / ppRedPentanomial */
+		if (p[2] == 0 && !(m % 8 != 0 && p[1] > 0 && m - p[1] >= B_PER_W)) continue;
+		if (p[2] != 0 && !(m - p[1] >= B_PER_W && p[1] < B_PER_W)) continue;
+		if (gf2Create_keep(m) > sizeof(QRMEM[0]) || gf2Create_deep(m) > sizeof(STACK)) continue;
+		if (!gf2Create(f, p, STACK)) continue;
+		n = f->n; no = f->no;
+		memset(mod.v, 0, sizeof(mod.v)); mod.n = W_OF_B(m + 1); wwSetBit(mod.v, m, 1); wwSetBit(mod.v, p[1], 1); mod.v[0] |= 1;
+		if (p[2]) wwSetBit(mod.v, p[2], 1), wwSetBit(mod.v, p[3], 1);
+		snprintf(mod.nm, sizeof(mod.nm), "deg%u", (unsigned)m);
+#define GB(op_) LB("gf2", op_, "def"); jInt("m", (long long)m); jInt("k", (long long)p[1]); jInt("l", (long long)p[2]); jInt("l1", (long long)p[3]); jInt("no", (long long)no)
+		for (i = 0; i < NPR; ++i)
+		{
+			mkpres(&a, &mod, i); wwTo(ao, no, a.v);
+			if (!qrFrom(A, ao, f, STACK)) continue;
+			snprintf(c2, sizeof(c2), "field=%s,a=%s", mod.nm, a.nm);
+			GB("qrSqr"); jOct("a", ao, no); CALL(qrSqr(C, A, f, STACK)); qrTo(co, C, f, STACK); jOct("out", co, no); LE_(c2, "none");
+			if (i != PR_ZERO) { GB("qrInv"); jOct("a", ao, no); g_sig = a.nm; CALL(qrInv(C, A, f, STACK)); g_sig = ""; qrTo(co, C, f, STACK); jOct("out", co, no); LE_(c2, "none"); }
+			for (j = 0; j < NPR; ++j)
+			{
+				mkpres(&b, &mod, j); wwTo(bo, no, b.v);
+				if (!qrFrom(B_, bo, f, STACK)) continue;
+				snprintf(c2, sizeof(c2), "field=%s,a=%s,b=%s", mod.nm, a.nm, b.nm);
+				GB("qrAdd"); jOct("a", ao, no); jOct("b", bo, no); CALL(qrAdd(C, A, B_, f)); qrTo(co, C, f, STACK); jOct("out", co, no); LE_(c2, "none");
+				GB("qrMul"); jOct("a", ao, no); jOct("b", bo, no); CALL(qrMul(C, A, B_, f, STACK)); qrTo(co, C, f, STACK); jOct("out", co, no); LE_(c2, "none");
+				if (i != PR_ZERO) { GB("qrDiv"); jOct("a", ao, no); jOct("b", bo, no); g_sig = a.nm; CALL(qrDiv(C, B_, A, f, STACK)); g_sig = ""; qrTo(co, C, f, STACK); jOct("out", co, no); LE_(c2, "none"); }
+			}
+		}
+	}
+}
 /*@ENDMORE@*/
 static int has(int argc, char** argv, const char* f)
 {
@@ -1569,13 +1620,13 @@ int main(int argc, char** argv)
 #define WANT(f) (all || has(argc, argv, f))
 	for (i = 0; i < 1; ++i)
 	{
-		if (WANT("zz")) { fam_zz_add(); fam_zz_mul(); fam_zz_div(); fam_zz_gcd(); fam_zz_pow(); }
+		if (WANT("zz")) { fam_zz_add(); fam_zz_mul(); fam_zz_div(); fam_zz_gcd(); fam_zz_jacobi_short(); fam_zz_pow(); }
 		if (WANT("mod")) fam_zz_mod();
 		if (WANT("red")) fam_zz_red();
 		if (WANT("ww")) fam_ww();
 		if (WANT("pp")) fam_pp();
 		if (WANT("word")) fam_word();
-		if (WANT("qr")) fam_qr();
+		if (WANT("qr")) { fam_qr(); fam_gf2(); }
 	}
 	fflush(stdout);
 	return 0;
